@@ -1229,6 +1229,19 @@ func lsmCheckReads(x *seqExec) (string, string) {
 func (st *lsmState) promise() map[string][]uint64 {
 	out := map[string][]uint64{}
 	now := uint64(time.Now().Unix())
+	if st.normal {
+		// normal mode: the discard watermark is the read watermark, which can never pass an open
+		// read transaction: at most (oldest open snapshot's read timestamp - 1), and at most the
+		// newest commit.  The promise is computed for that most aggressive legal watermark.
+		saved := st.discard
+		defer func() { st.discard = saved }()
+		st.discard = st.maxTs()
+		for _, sn := range st.snaps {
+			if r := sn.ReadTs(); r > 0 && r-1 < st.discard {
+				st.discard = r - 1
+			}
+		}
+	}
 	for _, k := range st.keys {
 		var ws []mwrite
 		for _, w := range st.writes {
